@@ -441,6 +441,15 @@ func (s *store) staleCheck(cb string, k int, e interface{}, nilIsZero bool) {
 	}
 }
 
+// merge is how the callbacks combine data with a row (model: `merge`): data 0 — the Go value nil — resets the row to the
+// nil row, so an update or upsert of a cached key may legitimately hand back (nil, nil); any other data is added
+func merge(e, v int) int {
+	if v == 0 {
+		return 0
+	}
+	return e + v
+}
+
 func (s *store) upd(ctx context.Context, d interface{}, e interface{}) (interface{}, error) {
 	p := d.(pair)
 	f, leave := s.enter("upd", p.k)
@@ -455,8 +464,8 @@ func (s *store) upd(ctx context.Context, d interface{}, e interface{}) (interfac
 		return nil, errNotFound
 	}
 	ev, _ := unwrapVal(e)
-	s.m[p.k] = ev + p.v
-	return s.wrap(ev + p.v), nil
+	s.m[p.k] = merge(ev, p.v)
+	return s.wrap(merge(ev, p.v)), nil
 }
 
 func (s *store) upsert(ctx context.Context, d interface{}, e interface{}) (interface{}, error) {
@@ -472,12 +481,12 @@ func (s *store) upsert(ctx context.Context, d interface{}, e interface{}) (inter
 	s.applied[p.k] = append(s.applied[p.k], p.v)
 	if e == nil {
 		// no existing row in hand (cache miss): merge in the store, hand back only what was given — the partial row
-		s.m[p.k] = s.m[p.k] + p.v
+		s.m[p.k] = merge(s.m[p.k], p.v)
 		return s.wrap(p.v), nil
 	}
 	base, _ := unwrapVal(e)
-	s.m[p.k] = base + p.v
-	return s.wrap(base + p.v), nil
+	s.m[p.k] = merge(base, p.v)
+	return s.wrap(merge(base, p.v)), nil
 }
 
 func (s *store) del(ctx context.Context, d interface{}) error {
@@ -1831,6 +1840,13 @@ func fixedCases() []corr.Case {
 		add("boundary-gap", "new "+f, "add 1 5 -", "gap upd 1 2", "peek 1", "store 1", "gap uoa 1 1", "gap utl 1 1", "gap utr 1 1", "gap add 2 3", "gap utl 3 4", "gap uoa 4 1", "peek 1", "store 1")
 	}
 	// a merging upsert on a cache miss hands back the partial row: it must not end up in the cache
+	// a cached non-nil row updated to the nil row through every hit path (data 0 resets the row), then read back; nil row ≠ absent
+	for _, f := range []string{"map 0 1", "lru 4 2", "lrus 6 1"} {
+		for _, op := range []string{"upd", "uoa", "utl", "utr"} {
+			add("boundary-to-nil", "new "+f, "add 1 5 -", op+" 1 0 -", "peek 1", "store 1", "get 1 -", op+" 1 3 -", "peek 1", "store 1", "add 1 2 -", "del 1 -", "peek 1", "store 1")
+		}
+		add("boundary-to-nil", "new "+f, "add 2 0 -", "peek 2", "store 2", "get 2 -", "upd 2 4 -", "utr 2 0 -", "get 2 -", "peek 2", "store 2", "gap upd 2 0", "gap utl 2 0")
+	}
 	add("boundary-partial", "new map 0 1", "utr 1 5 -", "utl 1 2 -", "peek 1", "store 1", "del 1 -", "utl 1 3 -", "peek 1", "store 1", "utr 2 4 -", "utr 2 1 -", "peek 2", "store 2", "utl 2 0 -", "peek 2")
 	// the same key through all seven operations, negative and extreme keys, several worker counts
 	for _, k := range []string{"-1", "-2", "-7", strconv.Itoa(math.MinInt64 + 1), "-9223372036854775807", strconv.Itoa(math.MaxInt64)} {
